@@ -27,6 +27,7 @@ class G:
         self.nvars = []      # (id, kind) assigned unconditionally earlier in the component list; kind in str|int|float
         self.svars = []
         self.kvars = []      # (id, key, kind): tracking-keyed variables assigned unconditionally earlier
+        self.anyvars = []    # (text, id) of every plain variable assigned by an earlier component, conditionally or not
         self.next_var = 1
         self.uses_lt = False
 
@@ -130,6 +131,10 @@ class G:
             a, qa, _ = self.nexp(d + 1)
             b, qb, _ = self.nexp(d + 1)
             return (f"between({x}, {a}, {b})", f"(BBetween {qx} {qa} {qb})")
+        if c < 0.64 and self.anyvars:
+            # a bare variable as a condition: true when it holds anything but None (0, 0.0 and "" exist)
+            t, v = r.choice(self.anyvars)
+            return (t, f"(BVarSet {v})")
         if c < 0.72:
             i = r.choice([5, 5, 3])
             k = r.choice(["exists", "empty", "bare"])
@@ -166,6 +171,7 @@ class G:
             self.next_var += 1
             if not conditional:
                 self.pending = ("n", v, kind)
+            self.pending_any = (f"@v{v}", v)
             return (f"@v{v} = {e}", f"(AssignN {v} {qe})")
         if c < 0.5:
             e, qe = self.sexp(1)
@@ -173,6 +179,7 @@ class G:
             self.next_var += 1
             if not conditional:
                 self.pending = ("s", v, None)
+            self.pending_any = (f"@s{v}", v)
             return (f"@s{v} = {e}", f"(AssignS {v} {qe})")
         if c < 0.75:
             e, qe, _ = self.nexp(1)
@@ -185,6 +192,7 @@ class G:
         v = self.next_var
         self.next_var += 1
         k = r.choice([1, 2, 3, 4])
+        self.pending_any = (f"@p{v}", v)
         return (f'@p{v} = pop("k{k}")', f"(Pop {v} {k})")
 
     def agg(self, conditional):
@@ -225,6 +233,7 @@ class G:
     def comp(self):
         r = self.rng
         self.pending = None
+        self.pending_any = None
         c = r.random()
         if self.aggs and c < 0.3:
             if r.random() < 0.7:
@@ -250,6 +259,8 @@ class G:
                 self.kvars.append((v, k[0], k[1]))
             else:
                 (self.nvars if kind == "n" else self.svars).append((v, k) if kind == "n" else v)
+        if self.pending_any:
+            self.anyvars.append(self.pending_any)
         return out
 
 
@@ -264,10 +275,11 @@ def gen_program(rng, ncomp=None):
         # a stack that is pushed on every line and popped on some: push ... cond -> pop (same stack)
         k = rng.choice([1, 2])
         saved = (g.nvars, g.svars)
-        g.nvars, g.svars, savedk, g.kvars = [], [], g.kvars, []      # the push goes to a random earlier position: it must not read a variable assigned after it
+        g.nvars, g.svars, savedk, g.kvars, saveda, g.anyvars = [], [], g.kvars, [], g.anyvars, []      # the push goes to a random earlier position: it must not read a variable assigned after it
         e, qe, _ = g.nexp(1)
         g.nvars, g.svars = saved
         g.kvars = savedk
+        g.anyvars = saveda
         b, qb = g.bexp(1)
         v = g.next_var
         g.next_var += 1
